@@ -699,6 +699,8 @@ func init() {
 		"os.ReadFile": "jpgo.verifReadFile", "io.ReadAll": "jpgo.verifReadAll",
 		"encoding/json.Unmarshal": "jpgo.verifUnmarshal", "(*github.com/jmespath/go-jmespath.Parser).Parse": "jpgo.verifParserParse",
 		"github.com/jmespath/go-jmespath.Search": "jpgo.verifLibSearch",
+		"flag.NArg": "jpgo.verifFlagNArg", "flag.Arg": "jpgo.verifFlagArg", "(*os.File).Write": "jpgo.verifFileWrite", "(*os.File).WriteString": "jpgo.verifFileWriteString",
+		"fmt.Fprint": "jpgo.verifFprint", "fmt.Print": "jpgo.verifPrint", "io.WriteString": "jpgo.verifIoWriteString",
 		"os.Open": "jpgo.verifOsOpen", "(*os.File).Close": "jpgo.verifFileClose", "encoding/json.NewDecoder": "jpgo.verifNewDecoder",
 		"(*encoding/json.Decoder).Decode": "jpgo.verifDecode", "bufio.NewReader": "jpgo.verifBufioNewReader",
 	}
